@@ -136,10 +136,8 @@ def observation(prog, maps, res, facts):
             if key in seen:
                 continue
             seen.add(key)
-            obs.append({"id": "valueflow", "key": key, "mk": "valueflow|=%s" % v, "indef": bool(prog["items"][item]["entity"]),
-                        "ingroup": False})
-    for o in obs:
-        o.pop("ingroup", None)
+            obs.append({"id": "valueflow", "key": key, "mk": "valueflow|=%s" % v, "pk": key, "indef": bool(prog["items"][item]["entity"]),
+                        "ingroup": False, "sev": "fact"})
     obs.sort(key=lambda r: r["key"])
     return obs
 
@@ -221,7 +219,7 @@ def run_corpus(progs, chains_of, facts=False, witness_every=1, log=None, both_la
                 pp["obs_idx"][ok] = len(pp["obs"])
             mk = json.dumps(R["names"], sort_keys=True)
             if mk not in pp["maps_idx"]:
-                pp["maps"].append([{"scope": s, "conc": c, "base": b} for (s, _r, b), c in sorted(maps["table"].items())])
+                pp["maps"].append([{"scope": s, "conc": c, "base": rc.base_of(k)} for (s, _r, k), c in sorted(maps["table"].items())])
                 pp["maps_idx"][mk] = len(pp["maps"])
             if si == 0:
                 o0, cc0 = pp["obs_idx"][ok], res["cc"]
